@@ -349,6 +349,9 @@ where
                 }
             }
             hist::log("send.inv", mi as i64, bytes.len() as i64, atts.len() as i64, "");
+            if m["corrupt"].is_object() && !cfg!(feature = "inproc") {
+                sim::corrupt_next_tx(m["corrupt"]["off"].as_u64().unwrap_or(0), m["corrupt"]["xor"].as_u64().unwrap_or(1) as u8);
+            }
             let r = raw.send(Raw { bytes, atts });
             hist::log(if r.is_ok() { "send.ok" } else { "send.err" }, mi as i64, 0, 0, "");
         }
@@ -400,6 +403,23 @@ where
                 out.viol("foreign-endpoint:recv", format!("a decoded value contains a sender (position {}) that is not connected to any channel attached to the message", e.a));
             }
         }
+        // a decoded receiver must be one of the attached ones: it holds that attachment's token
+        // (-1 = nothing queued: only possible if it was decoded from an attached sender's end)
+        let any_tx_att = evs.iter().any(|e| e.op == "att" && e.s == "tx");
+        for e in evs.iter().filter(|e| e.op == "value.rx") {
+            let attached = evs.iter().any(|a| a.op == "att" && a.s == "rx" && a.b == e.b);
+            if !(attached || (e.b == -1 && any_tx_att)) {
+                out.viol("foreign-endpoint:recv", format!("a decoded value contains a receiver (position {}) holding token {} - not one of the receivers attached to the messages", e.a, e.b));
+            }
+        }
+        // a decoded region must be one of the attached ones, with its contents (fill byte = id, length 64 + id)
+        for e in evs.iter().filter(|e| e.op == "value.region") {
+            let id = e.b - 64;
+            let attached = evs.iter().any(|a| a.op == "att" && a.s == "region" && a.b == id);
+            if !attached || e.s == "MIXED" || e.c != (id as u8) as i64 {
+                out.viol("foreign-or-altered-region:recv", format!("a decoded value contains a region (position {}) of length {} starting with byte {}{} - not one of the attached regions with its contents", e.a, e.b, e.c, if e.s == "MIXED" { ", mixed contents" } else { "" }));
+            }
+        }
         // every attached sender that was not handed to the program must have been released
         for a in evs.iter().filter(|e| e.op == "att" && e.s == "tx") {
             let closed = evs.iter().any(|w| w.op == "watch.closed" && w.a == a.b);
@@ -442,7 +462,7 @@ impl Scenario for C16S {
         }
     }
     fn rule(&self) -> &'static str {
-        "case = receiver of one of 12 types (integers, strings, vectors, option, enum, sender, receiver, region, tuple and struct combinations) fed 1..3 messages built as raw bytes + raw attachment list (0..8 senders/receivers/regions): valid encodings; encodings of another type; encodings whose attachment indices are out of range, used twice or leave attachments unreferenced; random bytes of length 0..4096; truncations; in-flight byte corruption injected at the seam; received directly or through a receiver set, decoded or dropped undecoded; non-trivial = at least one message failed to decode or was dropped undecoded; distinct = distinct (case, schedule hash)"
+        "case = receiver of one of 12 types (integers, strings, vectors, option, enum, sender, receiver, region, tuple and struct combinations) fed 1..3 messages built as raw bytes + raw attachment list (0..4 senders/receivers + 0..4 regions, shuffled): valid encodings; encodings of another type; encodings whose attachment indices are out of range, used twice or leave attachments unreferenced; random bytes of length 0..4096; truncations; in-flight byte corruption injected at the seam into the first packet of the chosen message; endpoints and regions inside a decoded value are probed for being the attached ones (sender: nonce reaches its watcher; receiver: holds its token; region: length and fill byte); received directly or through a receiver set, decoded or dropped undecoded; non-trivial = at least one message failed to decode or was dropped undecoded; distinct = distinct (case, schedule hash)"
     }
     fn died(&self, how: &str, panics: &str) -> Option<Violation> {
         if how.starts_with("signal") {
@@ -456,10 +476,10 @@ impl Scenario for C16S {
         let ty = idx % NTYPES;
         let nmsg = r.range(1, 3);
         let mut msgs = vec![];
-        let mut faults = vec![];
+        let faults: Vec<Value> = vec![];
         for mi in 0..nmsg {
             let nch = r.below(5);
-            let nreg = r.below(4);
+            let nreg = r.below(5);
             let mut atts: Vec<&str> = vec![];
             for _ in 0..nch {
                 atts.push(*r.pick(&["tx", "tx", "rx"]));
@@ -511,10 +531,11 @@ impl Scenario for C16S {
                 let n = r.below(bytes.len() as u64) as usize;
                 bytes.truncate(n);
             }
-            if kind == "corrupt" && variant != "inproc" {
-                faults.push(json!({"k": "corrupt", "pid": 2, "nth": mi, "iov": 1, "off": r.below(64), "xor": 1 << r.below(8)}));
-            }
-            msgs.push(json!({"kind": kind, "bytes": bytes, "atts": atts}));
+            // in-flight corruption: armed by the sender right before this very message goes out
+            // (a transmission index fixed in advance would drift with every token the sender
+            // transmits for a receiver attachment and with fragmentation of earlier messages)
+            let corrupt = if kind == "corrupt" && variant != "inproc" { json!({"off": r.below(64), "xor": 1 << r.below(8)}) } else { Value::Null };
+            msgs.push(json!({"kind": kind, "bytes": bytes, "atts": atts, "corrupt": corrupt}));
         }
         sim["faults"] = json!(faults);
         let via_set = r.chance(1, 3);
